@@ -304,7 +304,7 @@ def r4(R, repo):
           v = astu.arg_or_kw(call, 1, 'in_place')
           if v is not None and not astu.is_const(v, False):
             n_true += 1
-            arg = call.args[0]
+            arg = astu.arg_or_kw(call, 0, 'pytree')
             d = types.single_def(f.node, arg.id) if isinstance(arg, ast.Name) else arg
             ok = f.fq == 'flax.serialization:to_bytes' and isinstance(d, ast.Call) and astu.call_name(d) == 'to_state_dict'
             R.check(ok, key_of(f, 'msgpack_serialize(..., in_place=%s)' % astu.src(v)), (f, call), evidence=astu.is_const(v, True) and f.fq != 'flax.serialization:to_bytes', msg_fail=
